@@ -286,6 +286,7 @@ func allSchedules(mk func() []func(), visit func(trace []int), limit int) int {
 }
 
 func c02(c *Ctx) {
+	checkPrincipalEqual(c)
 	d := 300 * sec
 	clients := [][]string{{"alice"}, {"bob", "admin"}}
 	times := []int64{1 * sec, 291 * sec, -149 * sec}
